@@ -1216,3 +1216,116 @@ func urnEscapeScenario(g *gen, idx int) *scenario {
 	}
 	return s
 }
+
+// ------------------------------------------------------------------------------------------------
+// family: dates/* — probes for two known findings in gocommon/dates (outside the goflow module):
+//   dates/locale-names        a locale without an exact translation (French in Senegal, Arabic in Palestine ...): the BCP47
+//                             matcher is built from a map in iteration order, so WHICH country's day / month names and AM/PM
+//                             markers are used differs between processes (fresh-process comparison)
+//   dates/parse-error-token   parse_time / parse_datetime of text that is no time with the layout elements t / tt: the
+//                             error text names `t` or `tt` at random (in-process repetitions)
+
+func datesScenario(g *gen, feature string, idx int) *scenario {
+	f := newFlowB(g, "Dates "+feature)
+	env := obj{"date_format": "YYYY-MM-DD", "time_format": "hh:mm", "timezone": "Africa/Kigali"}
+	var resumesL []string
+	switch feature {
+	case "locale-names":
+		lc := hx.Pick(g.r, [][2]string{{"fra", "SN"}, {"ara", "PS"}, {"fra", "CI"}, {"spa", "GQ"}, {"por", "AO"}, {"eng", "RW"}})
+		env["allowed_languages"] = []string{lc[0]}
+		env["default_country"] = lc[1]
+		day := g.r.Range(1, 28)
+		f.addNode([]any{obj{"uuid": g.uuid(), "type": "send_msg",
+			"text": fmt.Sprintf("RDV: @(format_date(\"2024-%02d-%02d\", \"EEEE EEE D MMMM MMM YYYY\")) @(format_time(\"15:30\", \"h:mm aa\")) @(format_datetime(\"2024-03-06T09:05:00Z\", \"EEE D MMM h:mm aa\"))", g.r.Range(1, 12), day)}}, nil, 1)
+	case "parse-error-token":
+		env["allowed_languages"] = []string{"eng"}
+		r, _, ne := f.switchRouter("@input.text", [][2]any{{"has_any_word", []string{"never"}}}, true, "Answer")
+		f.addRouterNode([]any{}, r, ne)
+		layout := hx.Pick(g.r, []string{"tt:mm", "t:mm", "tt:mm:ss"})
+		f.addNode([]any{obj{"uuid": g.uuid(), "type": "send_msg",
+			"text": fmt.Sprintf("See you at @(parse_time(input.text, \"%s\")) or @(parse_datetime(input.text, \"YYYY-MM-DD %s\"))", layout, layout)}}, nil, 1)
+		resumesL = []string{hx.Pick(g.r, []string{"half past nine", "soon", "25 o clock"})}
+	}
+	def := f.finish()
+	assetsObj, _ := stdAssets(g, []any{def}, 0, nil, obj{})
+	trigger := obj{"type": "manual", "triggered_on": "2024-01-01T00:00:00.000000000-00:00", "environment": env,
+		"flow": obj{"uuid": f.uuid, "name": f.name}, "contact": contactJSON(g, map[string]string{}, nil)}
+	p := &engineParams{Feature: feature, Assets: mustJSON(assetsObj), Trigger: mustJSON(trigger), Resumes: resumesL}
+	s := &scenario{Family: "dates/" + feature, Index: idx, Params: p, Nontrivial: true}
+	s.run = func() (map[string][]byte, error) { return runEngine(p) }
+	return s
+}
+
+// ------------------------------------------------------------------------------------------------
+// family: names/flow-resolution — what a flow NAME resolves to (SessionAssets.ResolveFlow -> flowAssets.FindByName, as the
+// contact query `flow = "..."` does) with case-variant and equal names, after the namesakes were loaded in varying order
+
+type nameParams struct {
+	Feature string          `json:"feature"`
+	Assets  json.RawMessage `json:"assets"`
+	Load    []string        `json:"load"`
+	Names   []string        `json:"names"`
+}
+
+func flowNameScenario(g *gen, idx int) *scenario {
+	names := []string{"Registration", "registration", "REGISTRATION", "Survey", "Survey", "Other"}
+	var defs []any
+	var uuids_ []string
+	for i, n := range names {
+		fb := newFlowB(g, n)
+		fb.addNode([]any{obj{"uuid": g.uuid(), "type": "send_msg", "text": fmt.Sprintf("flow %d", i)}}, nil, 1)
+		defs = append(defs, fb.finish())
+		uuids_ = append(uuids_, fb.uuid)
+	}
+	assetsObj, _ := stdAssets(g, defs, 0, nil, obj{})
+	// load a PRNG-chosen subset, in PRNG-chosen order, before resolving the names
+	var load []string
+	order := make([]int, len(uuids_))
+	for i := range order {
+		order[i] = i
+	}
+	for i := len(order) - 1; i > 0; i-- {
+		j := g.r.Intn(i + 1)
+		order[i], order[j] = order[j], order[i]
+	}
+	for _, i := range order {
+		if g.r.Chance(2, 3) {
+			load = append(load, uuids_[i])
+		}
+	}
+	p := &nameParams{Feature: "flow-resolution", Assets: mustJSON(assetsObj), Load: load, Names: []string{"registration", "Registration", "survey", "other", "missing"}}
+	s := &scenario{Family: "names/flow-resolution", Index: idx, Params: p, Nontrivial: true}
+	s.run = func() (map[string][]byte, error) {
+		resetSources(false)
+		src, err := static.NewSource(p.Assets)
+		if err != nil {
+			return nil, err
+		}
+		env := envs.NewBuilder().Build()
+		sa, err := engine.NewSessionAssets(env, src, nil)
+		if err != nil {
+			return nil, err
+		}
+		for _, u := range p.Load {
+			if _, err := sa.Flows().Get(assets.FlowUUID(u)); err != nil {
+				return nil, err
+			}
+		}
+		var sb strings.Builder
+		for _, n := range p.Names {
+			fl, err := sa.Flows().FindByName(n)
+			if fl != nil {
+				fmt.Fprintf(&sb, "%s -> %s %s\n", n, fl.UUID(), fl.Name())
+			} else {
+				fmt.Fprintf(&sb, "%s -> none %v\n", n, err != nil)
+			}
+			if q, err := contactql.ParseQuery(env, fmt.Sprintf("flow = %q", n), sa.(contactql.Resolver)); err == nil {
+				fmt.Fprintf(&sb, "query -> %s\n", q.String())
+			} else {
+				fmt.Fprintf(&sb, "query -> error\n")
+			}
+		}
+		return map[string][]byte{"resolved": []byte(sb.String())}, nil
+	}
+	return s
+}
